@@ -43,3 +43,18 @@ CLAIMED["C16"] = dict(
     not_decided="run-time order beyond 'stable sort with strict less'; immutability of a returned BlockError against code outside the Entry/Exit cone.")
 for _p in ["C01","C02","C10","C16"]:
     NA.pop(_p, None)
+
+CLAIMED["C04"] = dict(
+    technique="static analysis: effect signature agreement on the gauge, call-graph read-only check, narrow-integer arithmetic scan over the rule-check cone, branch-fact shape of the admission loop",
+    decided="the isolation check reads the very gauge (ctx.StatNode concurrency) that the statistic slot increments once per passed entry and decrements once per completed entry (C01 rules), so rejected requests never occupy capacity and an Exit frees capacity at once; rule checks cannot write statistics; the admission sum is not formed in a type narrower than 64 bits; every rule is visited, the first violated rule blocks with the isolation block type and the read gauge as snapshot.",
+    not_decided="strictness of the comparison; the k-1 excess bound under interleavings.")
+CLAIMED["C07"] = dict(
+    technique="static analysis: branch-fact dominance for the inbound gate, per-case source table of the compared metric, enum exhaustiveness, call-graph read-only check",
+    decided="every system block is built on the FlowType()==Inbound branch and the other branch can only return nil; each metric case compares the documented inbound-node / system metric source with the rule's trigger; every MetricType below MetricTypeSize has a case and others are rejected by validation; BBR's capacity estimate is consulted only for Strategy==BBR and reads concurrency, min RT and peak completion rate of the inbound node; the first failing rule blocks with the system block type.",
+    not_decided="comparison strictness ('has reached' vs 'is above'), the BBR arithmetic, correctness of the aggregate statistics themselves (C08).")
+CLAIMED["C20"] = dict(
+    technique="static analysis: SSA value-identity guarded-append check, branch facts",
+    decided="every append to the filter list is on the TryPass()==false branch of the node and dominated by len(list) < int(float64(len(nodeBreakers))*MaxEjectionPercent) on the same slice value; half-open nodes are collected exactly under TryPass && !EnableActiveRecovery && state==HalfOpen; IsValidRule bounds MaxEjectionPercent to [0,1]; a successful completion marks the node recovered and recycle deletes only never-recovered nodes; the slot hands exactly these lists to the result.",
+    not_decided="floating-point rounding of percentage x count; timer behaviour of the recycler / retryer.")
+for _p in ["C04","C07","C20"]:
+    NA.pop(_p, None)
